@@ -43,7 +43,12 @@ def check_exp(w, rep, name, G, tier):
         D = w.G("SO3Dcm")
         okd, Dexp = guarded(w, rep, "C02.flow", "SO3Dcm.exp", lambda: w.param(w.call(D, "exp", e)))
         good = bool(seen) and isinstance(seen[0].get("arg"), Instance) and okd and mat_equal(w.param(seen[0]["arg"]), Dexp)
-        rep.check("C02.flow", "%s.exp = from_Dcm(SO3Dcm.exp(x))" % name, good, "Euler exp is not routed through the DCM exponential", where=W)
+        if not good and okd:
+            # the same value reached another way (from_Matrix of the matrix the DCM exponential builds, without wrapping it
+            # in a DCM element): compare what is computed, not how it is routed
+            okv, pair = guarded(w, rep, "C02.flow", "%s.exp value" % name, lambda: (w.param(w.call(G, "exp", e)), w.param(w.call(G, "from_Matrix", w.call(w.call(D, "exp", e), "to_Matrix")))))
+            good = okv and mat_equal(pair[0], pair[1])
+        rep.check("C02.flow", "%s.exp = from_Dcm(SO3Dcm.exp(x))" % name, good, "Euler exp is not the Euler chart of the DCM exponential", where=W)
         return
     # matrix whose radial ODE is checked: the argument of from_Matrix if exp is built through it (SE_2(3), DCM), else to_Matrix(exp)
     if via is not None and kind in ("quat", "mrp", "dcm"):
